@@ -116,7 +116,9 @@ def run_case(spec, ctx):
                     'detail': {'rsome': float(val)}, 'features': f, 'sig': sig,
                     'nontrivial': True}
         best, bx = bf
-        if abs(best - val) > 1e-6 * (1 + abs(best)):
+        # every MILP interface stops at a relative gap of 1e-4 by default (HiGHS, SCIP through
+        # OR-Tools, Gurobi); an incumbent within that gap is what "optimal" means for them
+        if abs(best - val) > 2e-4 * (1 + abs(best)):
             return {'status': 'violation', 'mechanism': 'bruteforce_mismatch',
                     'detail': {'rsome': float(val), 'enumeration': float(best),
                                'best_x': bx.tolist(), 'rsome_x': x.tolist(), 'solver': sname},
